@@ -3,85 +3,7 @@
 import json, os, sys, subprocess
 ROOT = os.path.dirname(os.path.dirname(os.path.abspath(__file__)))
 
-CHECKS = {
- "C17": dict(
-    engine="E-PURE", technique="TLA+ spec (code transcription = property formula, TLC exhaustive) + every TLC state replayed into the real function",
-    text=("CpuCount.tla holds a step-by-step transcription of cpu_count and, independently, the property's formula; TLC "
-          "proves them equal on every state of the enumerated configuration x call-history space and emits every complete "
-          "history as a test vector; each vector is replayed into the real cpu_count with all inputs substituted and the "
-          "return value, the warning and the probe count compared. Exhaustive for the enumerated space, which is the "
-          "right level for a pure case analysis."),
-    design_ref="6/C17",
-    note=("Configuration space = constants of MC_CpuCount_{quick,thorough}.cfg; Linux branch only; inputs substituted at "
-          "module level (os facade, open, psutil, probe); trusted: TLC, the substitution harness engine/pure/cpu_child.py.")),
- "C11": dict(
-    engine="E-PURE", technique="TLA+ spec of the tracker's line protocol + registry; every transition of TLC's state graph replayed into the real main(fd); recorded runs validated by TLC against the trace spec",
-    text=("ResourceTracker.tla models the request line protocol (field-level parsing rule included) and the refcount registry "
-          "as in the code, with ghost variables in the property's own words; TLC checks the property as invariants/action "
-          "properties exhaustively for the quick alphabet. Binding, both directions: every transition of the state graph (and "
-          "long simulated behaviours over a larger alphabet) is replayed into the real resource_tracker.main(fd), valid requests "
-          "being written by the real client API; random byte streams fed to the real main(fd) are validated by TLC against "
-          "Trace_ResourceTracker.tla. Right level: the tracker is a sequential state machine over an unbounded input language; "
-          "exhaustive small-scope model checking plus trace validation covers histories tests cannot enumerate."),
-    design_ref="6/C11",
-    note=("In-process run of main(fd) with _CLEANUP_FUNCS replaced by recorders (no real unlink), signal/stdio neutralised; "
-          "POSIX cleanup table; counts <= 2 exhaustively, larger only sampled; trusted: TLC, engine/pure/tracker_child.py.")),
- "C14": dict(
-    engine="E-SIM", technique="TLA+ spec with one action per semaphore operation, TLC exhaustive; behaviours replayed step-by-step into the real Condition code on instrumented semaphores; TLA+ monitors over observation traces; SemLock.tla replayed on real primitives across processes",
-    text=("Condition.tla has one action per semaphore operation of wait/notify/notify_all, timeouts firing at any moment; TLC "
-          "checks the clauses of the property exhaustively for 2-3 waiters, 1-2 notifiers, bursts of 2. Every transition of the "
-          "smallest graph and simulated behaviours of the larger ones are replayed operation by operation into the real "
-          "methods running on instrumented semaphores installed through Condition.__setstate__, the projected state compared "
-          "after each step; seeded random/priority schedules explore the real code as well; each execution ends with an epilogue "
-          "re-using the object; verdicts come from the TLA+ monitors Mon_C14 / Mon_C14E evaluated by TLC on the observation "
-          "traces. SemLock.tla behaviours are replayed on the real Lock/RLock/Semaphore/BoundedSemaphore from two threads of the "
-          "parent and of a loky child holding pickled copies. Known finding D5 (lost notify) is reproduced from TLC's "
-          "counterexample on the real code."),
-    design_ref="6/C14",
-    note=("Condition/Event interleavings are explored on modelled counting semaphores (trusted base, bound to the real ones by "
-          "part b); real primitives are exercised with non-blocking operations only; Event is covered by seeded schedules and a "
-          "monitor, not by an exhaustive spec of its own.")),
- "C01": dict(
-    engine="E-SIM", technique="TLA+ property monitor (Mon_Exec.tla, TLC-evaluated) over API-level traces of the real loky code run on modelled primitives under seeded/priority schedules with crashes and timeouts at chosen program points; protocol spec LokyExecutor.tla model-checked by TLC",
-    text=('Every execution of the real submit/manager/feeder/worker/shutdown code on modelled primitives is run to quiescence under a controlled schedule (uniform and priority schedules with change points, idle timeouts firing at any blocked moment, worker crashes at every worker program point incl. while holding each lock and between the two halves of a result message); Mon_Exec[C01] (TLA+, evaluated by TLC on the observation trace) requires every future terminal, every blocking API call returned and no livelock. Known genuine defects are matched by signature (known_findings.json).'),
-    design_ref="6/C01",
-    note=('E-SIM trusted base: modelled pipes (message framing, EOF/EPIPE, half-written messages), counting semaphores that stay held when their holder dies, process sentinels, virtual time; idle timeouts adversarial, the 30 s exit handshake and 5 s cool-down fire only at quiescence; hangs are judged at quiescence of the deterministic simulation (fair continuation before declaring divergence); the Windows branches and real OS signal delivery are outside E-SIM (see E-REAL checks).')),
- "C02": dict(
-    engine="E-SIM", technique="TLA+ property monitor (Mon_Exec.tla, TLC-evaluated) over API-level traces of the real loky code run on modelled primitives under seeded/priority schedules with crashes and timeouts at chosen program points; protocol spec LokyExecutor.tla model-checked by TLC",
-    text=('Crash-point enumeration on the real code in E-SIM: a worker is killed at a chosen label of its loop (every lock/pipe operation, inside the initializer, in the task), by the task itself, or at random; after the pool settles a probing submit is issued. Mon_Exec[C02] requires: no future left pending, no fabricated value, later submits rejected with BrokenProcessPool, all workers killed and reaped. Real signals/exit codes are covered by E-REAL (C02 real part).'),
-    design_ref="6/C02",
-    note=('E-SIM trusted base: modelled pipes (message framing, EOF/EPIPE, half-written messages), counting semaphores that stay held when their holder dies, process sentinels, virtual time; idle timeouts adversarial, the 30 s exit handshake and 5 s cool-down fire only at quiescence; hangs are judged at quiescence of the deterministic simulation (fair continuation before declaring divergence); the Windows branches and real OS signal delivery are outside E-SIM (see E-REAL checks).')),
- "C03": dict(
-    engine="E-SIM", technique="TLA+ property monitor (Mon_Exec.tla, TLC-evaluated) over API-level traces of the real loky code run on modelled primitives under seeded/priority schedules with crashes and timeouts at chosen program points; protocol spec LokyExecutor.tla model-checked by TLC",
-    text=("Task bodies log start/finish with their own id and return a value that encodes their submission; Mon_Exec[C03] requires at most one start per task, none after cancel() returned True, results only from the task's own completed execution, one resolution per future - under respawns, idle timeouts, crashes and two submitting threads. The map()/chunking clause is decided by MapChunks.tla (exhaustive) replayed into the real helpers."),
-    design_ref="6/C03",
-    note=('E-SIM trusted base: modelled pipes (message framing, EOF/EPIPE, half-written messages), counting semaphores that stay held when their holder dies, process sentinels, virtual time; idle timeouts adversarial, the 30 s exit handshake and 5 s cool-down fire only at quiescence; hangs are judged at quiescence of the deterministic simulation (fair continuation before declaring divergence); the Windows branches and real OS signal delivery are outside E-SIM (see E-REAL checks).')),
- "C04": dict(
-    engine="E-SIM", technique="TLA+ property monitor (Mon_Exec.tla, TLC-evaluated) over API-level traces of the real loky code run on modelled primitives under seeded/priority schedules with crashes and timeouts at chosen program points; protocol spec LokyExecutor.tla model-checked by TLC",
-    text=("Scenarios mix task-level failures (raise, SystemExit, KeyboardInterrupt, unpicklable argument, too-large argument, unpicklable result, unpicklable exception) at every position with full call queues and the feeder error path interleaved at container-operation grain; Mon_Exec[C04] requires the failing future to carry the task's own error (type, remote traceback as __cause__), siblings their own outcome, and the pool never broken."),
-    design_ref="6/C04",
-    note=('E-SIM trusted base: modelled pipes (message framing, EOF/EPIPE, half-written messages), counting semaphores that stay held when their holder dies, process sentinels, virtual time; idle timeouts adversarial, the 30 s exit handshake and 5 s cool-down fire only at quiescence; hangs are judged at quiescence of the deterministic simulation (fair continuation before declaring divergence); the Windows branches and real OS signal delivery are outside E-SIM (see E-REAL checks).')),
- "C05": dict(
-    engine="E-SIM", technique="TLA+ property monitor (Mon_Exec.tla, TLC-evaluated) over API-level traces of the real loky code run on modelled primitives under seeded/priority schedules with crashes and timeouts at chosen program points; protocol spec LokyExecutor.tla model-checked by TLC",
-    text=('Graceful shutdown (wait or not, del of the executor, interpreter exit) issued at scheduler-chosen points relative to submission, dispatch, completion, idle timeouts and respawn; Mon_Exec[C05] requires every submitted task to deliver its own outcome, workers to leave with status 0 through the handshake (never killed, pool never broken), management threads ended, later submit rejected with ShutdownExecutorError.'),
-    design_ref="6/C05",
-    note=('E-SIM trusted base: modelled pipes (message framing, EOF/EPIPE, half-written messages), counting semaphores that stay held when their holder dies, process sentinels, virtual time; idle timeouts adversarial, the 30 s exit handshake and 5 s cool-down fire only at quiescence; hangs are judged at quiescence of the deterministic simulation (fair continuation before declaring divergence); the Windows branches and real OS signal delivery are outside E-SIM (see E-REAL checks).')),
- "C06": dict(
-    engine="E-SIM", technique="TLA+ property monitor (Mon_Exec.tla, TLC-evaluated) over API-level traces of the real loky code run on modelled primitives under seeded/priority schedules with crashes and timeouts at chosen program points; protocol spec LokyExecutor.tla model-checked by TLC",
-    text=('Tasks that never finish (blocked until released, never released) with shutdown(kill_workers=True) issued in every pool state; Mon_Exec[C06] requires the call to return (logical promptness: it cannot have waited for a task), every unfinished future to fail with ShutdownExecutorError, all workers dead and reaped. Descendant process trees are covered by the E-REAL part.'),
-    design_ref="6/C06",
-    note=('E-SIM trusted base: modelled pipes (message framing, EOF/EPIPE, half-written messages), counting semaphores that stay held when their holder dies, process sentinels, virtual time; idle timeouts adversarial, the 30 s exit handshake and 5 s cool-down fire only at quiescence; hangs are judged at quiescence of the deterministic simulation (fair continuation before declaring divergence); the Windows branches and real OS signal delivery are outside E-SIM (see E-REAL checks).')),
- "C07": dict(
-    engine="E-SIM", technique="TLA+ property monitor (Mon_Exec.tla, TLC-evaluated) over API-level traces of the real loky code run on modelled primitives under seeded/priority schedules with crashes and timeouts at chosen program points; protocol spec LokyExecutor.tla model-checked by TLC",
-    text=('Idle timeouts are scheduler decisions that may fire whenever a worker is blocked waiting (timeout down to 0), racing with submit, dispatch, respawn and shutdown; Mon_Exec[C07] requires: never BrokenProcessPool, no lost or duplicated task, no worker leaving while holding a task, no kill.'),
-    design_ref="6/C07",
-    note=('E-SIM trusted base: modelled pipes (message framing, EOF/EPIPE, half-written messages), counting semaphores that stay held when their holder dies, process sentinels, virtual time; idle timeouts adversarial, the 30 s exit handshake and 5 s cool-down fire only at quiescence; hangs are judged at quiescence of the deterministic simulation (fair continuation before declaring divergence); the Windows branches and real OS signal delivery are outside E-SIM (see E-REAL checks).')),
- "C08": dict(
-    engine="E-SIM", technique="TLA+ property monitor (Mon_Exec.tla, TLC-evaluated) over API-level traces of the real loky code run on modelled primitives under seeded/priority schedules with crashes and timeouts at chosen program points; protocol spec LokyExecutor.tla model-checked by TLC",
-    text=('Mon_Exec[C08] computes concurrency from the start/finish log and samples len(executor._processes) after every scheduling step: never above max_workers; saturation scenarios submit >= max_workers blocking tasks and probe at quiescence that max_workers of them run (also after idle timeouts emptied the pool).'),
-    design_ref="6/C08",
-    note=('E-SIM trusted base: modelled pipes (message framing, EOF/EPIPE, half-written messages), counting semaphores that stay held when their holder dies, process sentinels, virtual time; idle timeouts adversarial, the 30 s exit handshake and 5 s cool-down fire only at quiescence; hangs are judged at quiescence of the deterministic simulation (fair continuation before declaring divergence); the Windows branches and real OS signal delivery are outside E-SIM (see E-REAL checks).')),
-}
+CHECKS = json.load(open(os.path.join(ROOT, "tools", "checks_meta.json")))
 
 NOT_YET = "check not built yet in this round (work in progress; see DESIGN.md section 10)"
 ALL = ["C%02d" % i for i in range(1, 21)]
